@@ -36,6 +36,12 @@ CLAIMED = {
          "symmetric frame; level hover with a quarter of the weight per rotor is an equilibrium (all 17 components); accelerometer zero in free "
          "fall; motor relaxation sign/time constant; equivariance under horizontal translation and yaw of the world frame (17 components).",
          "DESIGN.md §2 C16", TECH_T),
+ "C02": ("proof", "Lean 4: a generic theorem (Lib/RotExp) that A^4 = -t^2 A^2 implies NormedSpace.exp A = 1 + A + c(t)A^2 + d(t)A^3 "
+         "(Rodrigues closed form, proved from the exponential series, t = 0 included), instantiated for so2/se2/r^n/so3/se3/se23 hat matrices; "
+         "then for the translated exp of SO2, SE2, R2, R3, SO3Dcm, SO3Quat, SO3Mrp (shadow switch included), SE3Quat, SE3Mrp: to_Matrix(exp x) = "
+         "NormedSpace.exp(hat x) exactly, for every angle (beyond pi too) on the closed-form cell of the series coefficients, and at zero rotation. "
+         "Taylor cells (theta^2 < 1e-3), SE23 (goes through from_Matrix) and the Euler target: numeric search only (named in evidence).",
+         "DESIGN.md §2 C02", TECH_T),
 }
 checks = []
 for pid, (cat, text, ref, tech) in CLAIMED.items():
